@@ -576,6 +576,10 @@ spifconf_shell_expand(spif_charptr_t s)
                   }
               }
               if (!builtins[k].name) {
+                  if (!*pbuff) {
+                      /* Nothing follows the %; keep it. */
+                      pbuff--;
+                  }
                   newbuff[j] = *pbuff;
               } else {
                   D_CONF(("Call to built-in function %s detected.\n", builtins[k].name));
